@@ -310,6 +310,19 @@ func c01Case(c *core.Ctx, p *dyn.PairOps, sh c01shape, r *core.Rand, caseID stri
 				w.Expect(i, w.B.RawAt(i))
 			}
 			dst := mon.NewSl(B, il, func(i int) dyn.Val { return mon.Canary(B.TypeInfo, i, 99) })
+			var hiddenAll dyn.Sl
+			if il >= 0 && il%2 == 1 {
+				// the output slice is the front of a longer array (spare capacity)
+				vis, all := B.MakeSlHidden(il, 5)
+				for i := 0; i < all.Len(); i++ {
+					all.Set(i, mon.Canary(B.TypeInfo, i, 99))
+				}
+				dst = &mon.SlShadow{S: vis}
+				for i := 0; i < il; i++ {
+					dst.Want = append(dst.Want, vis.Get(i))
+				}
+				hiddenAll = all
+			}
 			before := mon.ShapeOf(w.B)
 			n := min(winLen, max(il, 0))
 			d := map[string]any{"fn": "Read" + pairName, "shape": shapeD, "output_len": il, "buffer_len": winLen}
@@ -329,7 +342,17 @@ func c01Case(c *core.Ctx, p *dyn.PairOps, sh c01shape, r *core.Rand, caseID stri
 				}
 				dst.Want[i] = dst.S.Get(i)
 			}
-			c01Common(c, "Read"+pairName, caseID, d, a, w, before, got, mon.CeilDiv(n, sh.ch), dst.Verify("output beyond the part read"))
+			outProblems := dst.Verify("output beyond the part read")
+			if hiddenAll != nil {
+				for i := il; i < hiddenAll.Len(); i++ {
+					if !hiddenAll.Get(i).Same(mon.Canary(B.TypeInfo, i, 99)) && !dyn.NumEq(hiddenAll.Get(i), mon.Canary(B.TypeInfo, i, 99)) {
+						outProblems = append(outProblems, mon.Problem{Kind: "caller-slice", Msg: fmt.Sprintf("element %d behind the end of the output slice (its spare capacity) was written", i)})
+						break
+					}
+				}
+				c.Obs("reads_into_slices_with_spare_capacity", 1)
+			}
+			c01Common(c, "Read"+pairName, caseID, d, a, w, before, got, mon.CeilDiv(n, sh.ch), outProblems)
 			c01Lens(c, il, winLen, n, sh.ch)
 		}
 	}
